@@ -101,6 +101,7 @@ class State:
         self.trace = []       # ghost trace of branch decisions (line, taken)
         self.ghost = {}
         self.objs = {}
+        self.bufs = {}
 
     def fork(self):
         s = State.__new__(State)
@@ -114,6 +115,7 @@ class State:
         s.trace = list(self.trace)
         s.ghost = dict(self.ghost)
         s.objs = {k: dict(v) for k, v in self.objs.items()}
+        s.bufs = dict(self.bufs)
         return s
 
     def assume(self, f):
